@@ -36,7 +36,7 @@ ASSUMPTIONS = [
 
 def configs(tier):
     F = forceh.make_configs
-    hs = ("twice", "reconf", "renodes", "engine2", "subset", "stale")
+    hs = ("twice", "reconf", "renodes", "engine2", "subset", "stale", "interleaved")
     if tier == "quick":
         c = F([2], algs=("overlap", "simple", "none"), bounds=((0, 100), (None, 100)), hists=hs)
         c += F([3], algs=("overlap", "simple"), bounds=((0, 100),), hists=hs, shards=4)
